@@ -2021,4 +2021,178 @@ theorem selRandomChoose_draws (k : Nat) (pool : Pool) (ds : List Nat)
       simp at this
       exact lrPick_draws best ds' (by omega) h2 (by intro hnil; subst hnil; simp at h3; omega)
 
+theorem nodup_subset_length : ∀ (l m : List Nat), l.Nodup → (∀ x ∈ l, x ∈ m) → l.length ≤ m.length
+  | [], m, _, _ => Nat.zero_le _
+  | a :: l, m, hn, hs => by
+    rw [List.nodup_cons] at hn
+    have ham : a ∈ m := hs a (List.mem_cons_self ..)
+    have ih := nodup_subset_length l (m.erase a) hn.2 (by
+      intro x hx
+      have hxa : x ≠ a := fun h => hn.1 (h ▸ hx)
+      exact (List.mem_erase_of_ne hxa).2 (hs x (List.mem_cons_of_mem _ hx)))
+    rw [List.length_erase_of_mem ham] at ih
+    have : 0 < m.length := List.length_pos_of_mem ham
+    simp; omega
+
+/-- is position `j` an available upstream carrying at least `l` requests? -/
+def loadedAt (pool : Pool) (l : Nat) (j : Nat) : Bool :=
+  match pool[j]? with
+  | some v => v.avail && decide (l ≤ v.load)
+  | none => false
+
+theorem selRandomChoose_count {k : Nat} {pool : Pool} {ds : List Nat} {i : Nat}
+    (h : (selRandomChoose k pool ds).1 = .sel i) :
+    ∃ u, pool[i]? = some u ∧ u.avail = true ∧
+      min (min k pool.length) (numAvail pool) ≤ ((List.range pool.length).filter (loadedAt pool u.load)).length := by
+  obtain ⟨ch, hok, hnd, hlen, l, hmem, hmin⟩ := selRandomChoose_spec h
+  obtain ⟨u, hu, hav, hl⟩ := hok _ hmem
+  refine ⟨u, hu, hav, ?_⟩
+  rw [← hlen, ← List.length_map (f := Prod.fst)]
+  apply nodup_subset_length _ _ hnd
+  intro j hj
+  obtain ⟨c, hc, hcj⟩ := List.mem_map.1 hj
+  obtain ⟨v, hv, hva, hvl⟩ := hok c hc
+  have hlt : c.1 < pool.length := (List.getElem?_eq_some_iff.1 hv).1
+  rw [← hcj]
+  apply List.mem_filter.2
+  refine ⟨List.mem_range.2 hlt, ?_⟩
+  simp only [loadedAt, hv, hva, Bool.true_and, decide_eq_true_eq]
+  have := hmin c hc
+  simp at hl
+  omega
+
+theorem mkPool_fails (c : PCfg) : ∀ (us : List PUp) (ls fs : List Nat) (i : Nat) (u : Up),
+    (mkPool c us ls fs)[i]? = some u → fs[i]? = some u.fails ∧ u.maxFails = c.maxFails ∧ u.healthy = true
+  | [], _, _, i, u, h => by simp [mkPool] at h
+  | _ :: _, [], _, i, u, h => by simp [mkPool] at h
+  | _ :: _, _ :: _, [], i, u, h => by simp [mkPool] at h
+  | pu :: us, l :: ls, f :: fs, 0, u, h => by
+    simp [mkPool] at h; subst h; exact ⟨rfl, rfl, rfl⟩
+  | pu :: us, l :: ls, f :: fs, i + 1, u, h => by
+    simp [mkPool] at h
+    simpa using mkPool_fails c us ls fs i u h
+
+/-- passive health checks that remember failures (`fail_duration`) with `max_fails` 1: whatever
+    `Select` returns has no recorded failure -/
+theorem sel_has_no_fails {c : PCfg} {s : PState} {i : Nat} (hfd : c.fd = true) (hmf : c.mf ≤ 1)
+    (h : selRes c s = .sel i) : s.fails[i]? = some 0 := by
+  obtain ⟨u, hu, hav⟩ := select_safe _ _ _ _ i h
+  unfold poolOf at hu
+  rw [List.getElem?_map] at hu
+  cases h0 : (mkPool c c.ups s.loads s.fails)[i]? with
+  | none => simp [h0] at hu
+  | some u0 =>
+    simp [h0] at hu
+    obtain ⟨h1, h2, _⟩ := mkPool_fails c c.ups s.loads s.fails i u0 h0
+    subst hu
+    have hmax : c.maxFails = some 1 := by
+      unfold PCfg.maxFails PCfg.passive
+      simp [hfd]
+      omega
+    simp [Up.avail, Up.isHealthy, h2, hmax] at hav
+    rw [h1]; congr 1; omega
+
+/-- static upstreams, failures remembered, `max_fails` 1: within one request no upstream is tried
+    twice, and the upstream that finally answers has not been tried before -/
+theorem attempt_no_retry_of_failed (c : PCfg) (hold get : Bool) (hdyn : c.dyn = false) (hfd : c.fd = true)
+    (hmf : c.mf ≤ 1) : ∀ (left : Nat) (prev : PErr) (s : PState),
+    ((attempt c hold get left prev s).1.filter Option.isSome).Nodup ∧
+    (∀ j, some j ∈ (attempt c hold get left prev s).1 → s.fails[j]? = some 0) ∧
+    (∀ i, (attempt c hold get left prev s).2.1 = .sent i → s.fails[i]? = some 0 ∧ some i ∉ (attempt c hold get left prev s).1)
+  | 0, prev, s => by
+    unfold attempt
+    split
+    · simp
+    · rename_i i hsel
+      have h0 := sel_has_no_fails hfd hmf hsel
+      split
+      · exact ⟨by simp, by simp, fun j hj => by cases hj; exact ⟨h0, by simp⟩⟩
+      · refine ⟨by simp, ?_, by simp⟩
+        intro j hj; simp at hj; subst hj; exact h0
+    · simp
+    · simp
+  | left + 1, prev, s => by
+    unfold attempt
+    split
+    · split
+      · obtain ⟨h1, h2, h3⟩ := attempt_no_retry_of_failed c hold get hdyn hfd hmf left (carried prev) (afterSel c s)
+        refine ⟨by simpa using h1, ?_, ?_⟩
+        · intro j hj; simp at hj; exact h2 j hj
+        · intro i hi
+          obtain ⟨g1, g2⟩ := h3 i hi
+          exact ⟨g1, by simpa using g2⟩
+      · simp
+    · rename_i i hsel
+      have h0 := sel_has_no_fails hfd hmf hsel
+      split
+      · exact ⟨by simp, by simp, fun j hj => by cases hj; exact ⟨h0, by simp⟩⟩
+      · split
+        · obtain ⟨h1, h2, h3⟩ := attempt_no_retry_of_failed c hold get hdyn hfd hmf left (errAt c i) (afterFail c s i)
+          -- the failure of `i` is recorded and stays (static upstreams)
+          have hf : (afterFail c s i).fails = incAt s.fails i := by
+            simp [afterFail, afterSel, dropFails, hdyn, hfd]
+          have hne : ∀ j, (afterFail c s i).fails[j]? = some 0 → j ≠ i ∧ s.fails[j]? = some 0 := by
+            intro j hj
+            rw [hf, incAt_get] at hj
+            by_cases hji : j = i
+            · subst hji; simp [h0] at hj
+            · simp [hji] at hj; exact ⟨hji, hj⟩
+          refine ⟨?_, ?_, ?_⟩
+          · simp only [List.filter_cons, Option.isSome_some, if_true]
+            rw [List.nodup_cons]
+            refine ⟨?_, h1⟩
+            intro hm
+            have := (List.mem_filter.1 hm).1
+            exact (hne i (h2 i this)).1 rfl
+          · intro j hj
+            simp at hj
+            rcases hj with hj | hj
+            · subst hj; exact h0
+            · exact (hne j (h2 j hj)).2
+          · intro k hk
+            obtain ⟨g1, g2⟩ := h3 k hk
+            obtain ⟨gne, g0⟩ := hne k g1
+            refine ⟨g0, ?_⟩
+            simp
+            exact ⟨fun h => gne h, g2⟩
+        · refine ⟨by simp, ?_, by simp⟩
+          intro j hj; simp at hj; subst hj; exact h0
+    · simp
+    · simp
+
+theorem tryAgain_false_succ {left : Nat} {e : PErr} {ok : Bool} (h : tryAgain (left + 1) e ok = false) :
+    e = .other ∧ ok = false := by
+  cases e <;> simp [tryAgain] at h
+  exact ⟨rfl, h⟩
+
+/-- a request that is refused before its retries are used up is one that must not be repeated:
+    its last error was not a dial error and it is not retryable -/
+theorem attempt_gives_up_early (c : PCfg) (hold get : Bool) : ∀ (left : Nat) (prev : PErr) (s : PState) (code : Nat),
+    (attempt c hold get left prev s).2.1 = .status code → (attempt c hold get left prev s).1.length ≤ left →
+    retryable c get = false
+  | 0, prev, s, code, h, hl => by
+    unfold attempt at h hl
+    cases hs : selRes c s <;> simp only [hs] at h hl
+    · simp at hl
+    · by_cases hb : badAt c.ups ‹Nat› = 0
+      · simp [hb] at h
+      · simp [hb] at hl
+    all_goals (first | cases h | simp at h)
+  | left + 1, prev, s, code, h, hl => by
+    unfold attempt at h hl
+    cases hs : selRes c s <;> simp only [hs] at h hl
+    · by_cases ht : tryAgain (left + 1) (carried prev) (retryable c get) = true
+      · simp only [ht, if_true, List.length_cons] at h hl
+        exact attempt_gives_up_early c hold get left _ _ code h (by omega)
+      · exact (tryAgain_false_succ (by simpa using ht)).2
+    · rename_i i
+      by_cases hb : badAt c.ups i = 0
+      · simp [hb] at h
+      · simp only [hb, if_false] at h hl
+        by_cases ht : tryAgain (left + 1) (errAt c i) (retryable c get) = true
+        · simp only [ht, if_true, List.length_cons] at h hl
+          exact attempt_gives_up_early c hold get left _ _ code h (by omega)
+        · exact (tryAgain_false_succ (by simpa using ht)).2
+    all_goals (first | cases h | simp at h)
+
 end CaddyModel.C08
